@@ -54,6 +54,11 @@ SysSetVol(w, m, v) ==
 (* a load that fails (or succeeds) elsewhere must leave the flag alone *)
 SysFailedLoad(w) == ResW("exception", {w}, 0)
 
+(* bulk edit of pattern q (one cell): all-or-nothing; after a commit the installed note carries module number n *)
+SysBulk(w, q, n, fail) == IF fail THEN ResW("callable-exception", {w}, 0) ELSE ResW("ok", {[w EXCEPT !.p.nmod[q] = n]}, 0)
+(* Module.clone(): a free copy (through serialization) of module src, bound to the free id dst: same controller value, no links *)
+SysClone(w, src, dst) == ResW("ok", {[w EXCEPT !.vol[dst] = w.vol[src], !.t[dst] = NoLinks]}, 0)
+
 SysCoherent(w) ==
   /\ Coherent(w.p)
   /\ w.strict = TRUE
